@@ -32,7 +32,7 @@ func (c16) NumCases(tier string) int {
 	if tier == "thorough" {
 		return c16Heavy(tier) + 400_000
 	}
-	return c16Heavy(tier) + 5_000
+	return c16Heavy(tier) + 4_600
 }
 
 func (c16) Describe() CheckInfo {
